@@ -55,6 +55,8 @@ def conclude(pid, tier, seed, obls, infos, undecided_reasons, wall, write_eviden
                 import witness
                 parts = ob.name.split(".")
                 key = parts[2] if len(parts) > 2 else ob.name
+                if isinstance(getattr(ob, "witness", None), str):
+                    key = ob.witness
                 hit = witness.attach(ob, WITNESS_MODES[ob.unit_name], key, seed, tier)
                 if hit and ob.status == UNDECIDED:
                     ob.status = FAILED
